@@ -1,4 +1,4 @@
 From Coq Require Extraction.
 From Coq Require Import ExtrOcamlBasic.
 From AIT Require Import Base.Vio C18.Model C18.Spec.
-Extraction "model.ml" vio_kit parse_text parse_lines lex_text parse_sizes size_class denote wfb rendersb hdr_of.
+Extraction "model.ml" vio_kit parse_text parse_lines lex_text parse_sizes size_class denote wfb rendersb hdr_of parse_text_st state_after load_model.
